@@ -63,6 +63,7 @@ def reader(ctx, p, f):
                'one read fetches one 16-byte record into a 16-byte buffer (size %s, buffer %s)' % (size, dims), site=f.loc(rd))
         stream = cn(f, kids(kids(rd)[0])[0]) if kids(kids(rd)[0]) else '?'
         uses = [x for x in f.all_nodes() if x.get('ref', {}).get('k') == 'Local' and x['ref'].get('id') == bid and not f.inside(x, rd)]
+        ctx.floor('C19.R1.check-after-read', len(uses), 3, 'uses of the record buffer')
         bad = []
         for u in uses:
             ok = False
@@ -80,7 +81,7 @@ def reader(ctx, p, f):
                         ok = True
             if not ok:
                 bad.append(u)
-        ctx.ob('C19.R1.check-after-read', 'read(%s)' % bufname, not bad and len(uses) >= 12,
+        ctx.ob('C19.R1.check-after-read', 'read(%s)' % bufname, not bad,
                'all %d uses of the record buffer are governed by a test of the stream made after the read that filled it%s'
                % (len(uses), '' if not bad else ' — ungoverned at line(s) %s' % sorted({u.get('l') for u in bad})),
                site=f.loc(bad[0]) if bad else f.loc(rd))
@@ -103,8 +104,14 @@ def reader(ctx, p, f):
 
 
 # ---- R2 -----------------------------------------------------------------------------------------------------------------------
-def byte_terms(f, e, buf):
+def byte_terms(f, e, buf, prog=None):
     """OR of (buf[k] & 0xFF) << s -> {k: s}; None when a term has another shape (unmasked byte!)"""
+    if prog is not None:
+        v = pack.byte_value(prog, f, e, buf)
+        if v is None:
+            raise AnalysisBroken('C19.R2: the composition of a record field from the buffer at %s is outside the byte-term domain '
+                                 '(OR/shift/mask of buffer bytes, constant-bound loops, helpers)' % f.loc(e))
+        return v['b'] if isinstance(v, dict) else str(v[1])
     out = {}
     for t in pack.flatten_or(e):
         tk = pack.term(t)
@@ -130,12 +137,12 @@ def layout(ctx, p, f):
     kd, mc, wt = decl(f, 'key'), decl(f, 'move_code'), decl(f, 'weight')
     if kd is None or mc is None or wt is None:
         raise AnalysisBroken('C19: key/move_code/weight locals of the reader not found')
-    bt = byte_terms(f, kids(kd)[0], 'entry')
+    bt = byte_terms(f, kids(kd)[0], 'entry', p)
     ctx.ob('C19.R2.key-bytes', 'key', bt == {k: 56 - 8 * k for k in range(8)},
            'the key is bytes 0..7 of the record, most significant first, each masked to 8 bits (%s)' % bt, site=f.loc(kd))
-    mt = byte_terms(f, kids(mc)[0], 'entry')
+    mt = byte_terms(f, kids(mc)[0], 'entry', p)
     ctx.ob('C19.R2.move-bytes', 'move_code', mt == {8: 8, 9: 0}, 'the move code is bytes 8..9, big-endian, masked (%s)' % mt, site=f.loc(mc))
-    wtt = byte_terms(f, kids(wt)[0], 'entry')
+    wtt = byte_terms(f, kids(wt)[0], 'entry', p)
     ctx.ob('C19.R2.weight-bytes', 'weight', wtt == {10: 8, 11: 0}, 'the weight is bytes 10..11, big-endian, masked (%s)' % wtt, site=f.loc(wt))
     fields = {}
     for nm in ('fromRank', 'fromFile', 'toRank', 'toFile', 'promotion_code'):
